@@ -21,6 +21,10 @@ def gen_c09(tier, rng):
             for park in "ws":
                 for rep in range(2 if big else 1):
                     out.append("\t".join(["mt", "turn", sink, str(sa), str(sb), park, str(rep), "asan"]))
+        # the same after many earlier records (65535, 65536+255: counters inside a lock wrap around)
+        for before in ((255, 65535, 65791, 131071) if big else (65535,)):
+            for park in "ws":
+                out.append("\t".join(["mt", "turn", sink, "2", "2", park, str(before), "asan"]))
         for n in (2, 4, 8):
             for r in ((20, 120, 250) if big else (20, 120)):
                 for mode in ((2, 5, 6, 7, 8) if big else (6, 7, 8)):
@@ -50,7 +54,7 @@ C09 = Prop(
          "replaced by a deliberately unsynchronised, buffering one that detects concurrent entry into write and flush: a "
          "turnstile scenario (writer A parked inside the stream buffer - in its write or in the flush that follows - "
          "writer B given 300 ms to get in) for 14 pairs of severities (every severity of B against info, every severity "
-         "of A, fatal/fatal) and stress runs with N in {2,4,8} threads x 20/120 records of varying length and mixed "
+         "of A, fatal/fatal; also after 65535 earlier records) and stress runs with N in {2,4,8} threads x 20/120 records of varying length and mixed "
          "severities (thorough: up to 250, more seeds, more mixes) with yields, byte-exact reassembly of the device "
          "contents; records of 2 MiB (thorough: up to 16 MiB) from one thread while three (1..7) others log 1500 short "
          "records each (for these the model side does not simulate: it answers from the theorem when the extracted "
